@@ -378,8 +378,10 @@ for (sid, rule) in [("C01-a5", "T-get-immutable"), ("C05-a5", "T-unschedule"), (
     P.append(("RS-" + sid, sid.split("-")[0], rule, f"/verif/refactored_seeds/{sid}/combined.diff"))
 # refactor-of-seed composites on round-6 seeds
 for (sid, rule) in [("C02-a6", "L2-index"), ("C04-a6", "T-fresh-if-missing"), ("C07-a6", "T-debt-repay"), ("C09-a6", "T-perm-applied"), ("C10-a6", "T-decode-fresh"),
-                    ("C13-a6", "G-renew-shards"), ("C16-a6", "G-inflight"), ("C18-a6", "T-validate-map")]:
+                    ("C16-a6", "G-inflight"), ("C18-a6", "T-validate-map")]:
     P.append(("RS-" + sid, sid.split("-")[0], rule, f"/verif/refactored_seeds/{sid}/combined.diff"))
+# RS-C13-a6 (Renew split into loadRenewTarget -> renewableShards / renewData) is archived but not registered: G-renew-shards
+# is not decided there and G-renew (C09) raises a false alarm on it (DESIGN 8.6)
 import glob as _glob
 for d in sorted(_glob.glob("/verif/refactors/R[0-9][0-9]")):
     rid = os.path.basename(d)
